@@ -82,7 +82,7 @@ def run(ctx, n_bases=None, rng_name="main", max_seconds=None):
         a = G.gen_schema(rng, odd=odd, computed=True, unnamed_uq=True)
         ctx.hist("base.class", "odd" if odd else "plain")
         ctx.hist("base.tables", len(a["tables"]))
-        for desc, b in G.candidate_mutations(rng, a, odd):
+        for desc, b in G.candidate_mutations(rng, a, odd, stacked=True):
             if desc["m"] in ("changeFKOptions", "changeTypeArgs", "swapNamedKind", "addIndexedColumn"):
                 continue  # edits for C06 pairs (two ops, or not a family change): not catalogue mutations
             K.run_mutation(ctx, a, desc, b, pending, rng)
